@@ -25,6 +25,8 @@ def gen_wrapper_source(q, part, twin=False):
     fn = getattr(q.fn, "__wrapped_harness__", q.fn)
     sig = inspect.signature(fn)
     free, callargs = [], []
+    ranges = {n: v for n, v in part.items() if isinstance(v, (list, tuple))}      # [lo, hi] = stays symbolic, pre-condition added
+    part = {n: v for n, v in part.items() if n not in ranges}
     for n, p in sig.parameters.items():
         if n in part:
             callargs.append("%s=%r" % (n, part[n]))
@@ -44,6 +46,7 @@ def gen_wrapper_source(q, part, twin=False):
                 return None            # partition infeasible under the pre-condition
             continue
         pres.append(ee)
+    pres = ["%d <= %s <= %d" % (v[0], n, v[1]) for n, v in ranges.items()] + pres
     doc = "".join("    pre: %s\n" % p for p in pres) + "    post: %s\n" % ("False" if twin else "_")
     name = "q_twin" if twin else "q_main"
     return ("def %s(%s) -> bool:\n    \"\"\"\n%s    \"\"\"\n    return _Q.fn(%s)\n"
@@ -192,7 +195,7 @@ def main():
         msgs = analyse(wmod.q_twin, min(timeout, 120.0))
         st = [m.state.name for m in msgs]
         if "POST_FAIL" in st and "args" in cex:
-            targs = dict(part)
+            targs = {k: v for k, v in part.items() if not isinstance(v, (list, tuple))}
             targs.update(cex["args"])
             r = q.fn(**targs)      # not tracing here: native execution
             twin_ok = isinstance(r, bool)
@@ -240,7 +243,7 @@ def main():
         if "NotDeterministic" in text or "CrossHairInternal" in text:
             result["status"] = "ERROR"
         elif "args" in cex:
-            a = dict(part)
+            a = {k: v for k, v in part.items() if not isinstance(v, (list, tuple))}
             a.update(cex["args"])
             result["status"] = "REFUTED"
             result["counterexample"] = a
